@@ -12,6 +12,9 @@ import traceback
 
 ROOT = os.path.dirname(os.path.dirname(os.path.abspath(__file__)))
 EVID = os.path.join(ROOT, "evidence")
+if os.environ.get("PYVC_REPO_SRC") not in (None, "", "/repo/src"):
+    # a run against a scratch copy (self-tests, seeded changes) must not overwrite the evidence about /repo
+    EVID = os.path.join(ROOT, ".tmp", "evidence_scratch")
 REPLAYS = os.path.join(ROOT, "replays")
 KNOWN = os.path.join(ROOT, "known_findings.json")
 
